@@ -273,8 +273,13 @@ def check_guards(ck, tu):
                                 got = ("opaque",)
                         if got == ("opaque",):
                             raise dtable.Undecidable("%s: guard prefix of %s not understood" % (fn.loc, name))
-                        # a scan over an empty range yields npos
+                        # a scan over an empty range yields npos - provided it starts at the (only) valid position of the empty view
                         if got[0] == "scan" and want[0] == "ret" and want[1] == NPOS and S == 0:
+                            raw = (S - 1 - got[2]) & M64 if got[1] == "rev" else got[2]
+                            if raw == 0:
+                                continue
+                            if bad is None:
+                                bad = (S, pos, n, ssz, ("scan", got[1], got[2]), want)
                             continue
                         if name == "copy" and got[0] == "copy" and want[0] == "copy" and want[2] == 0 and got[2] == 0:
                             continue
@@ -341,6 +346,20 @@ def check_primitives(ck, tu):
             if "callee" in x and x["callee"]["name"] == "lexicographical_compare" and len(kids(x)) == 4:
                 ck.violation("BYTE-ORDER-UNSIGNED", fn.qname, sig(fn),
                              "std::lexicographical_compare on char iterators orders bytes as (signed) char; std::string_view orders them as unsigned char (char_traits)", fn.nloc(x))
+            # hand-written ordering of two bytes read from memory as plain char
+            if x["k"] == "BinaryOperator" and x.get("op") in ("<", ">", "<=", ">="):
+                ops = [strip_casts(o) for o in kids(x)]
+                def is_char_read(o):
+                    t = (o.get("ty") or "").replace("const ", "").strip()
+                    return t == "char" and (o["k"] == "ArraySubscriptExpr" or (o["k"] == "UnaryOperator" and o.get("op") == "*"))
+                # an explicit conversion to unsigned char in between makes the operand type unsigned: strip_casts removed it, so look at the direct children
+                direct = [(k.get("ty") or "") for k in kids(x)]
+                converted = any(z["k"] in ("CXXStaticCastExpr", "CStyleCastExpr", "CXXFunctionalCastExpr") and "unsigned char" in (z.get("ty") or "")
+                                for k in kids(x) for z in ir.walk(k))
+                if all(is_char_read(o) for o in ops) and not converted:
+                    ck.violation("BYTE-ORDER-UNSIGNED", fn.qname, sig(fn) + ":" + dtable.describe(x)[:40],
+                                 "two bytes of the views are ordered as plain (signed) char: %s; std::string_view orders them as unsigned char, so 0x80..0xFF sort "
+                                 "after ASCII" % dtable.describe(x)[:60], fn.nloc(x))
             # raw memory primitives on the view: (ptr_ + a, len) must stay inside [0, size_)
             if "callee" in x and x["callee"]["name"] in ("memchr", "memcmp", "memcpy", "compare", "find") and ("std::char_traits" in x["callee"]["qname"] or x["callee"]["name"].startswith("mem")):
                 check_scan_bound(ck, fn, x)
